@@ -211,6 +211,12 @@ type c05Exported struct {
 	gates        int
 	ssaText      string
 	constsTabled bool
+	// constsRead: every constant operand in a value position is in
+	// prog.Constants, or is an operand of a default-branch step whose circuit
+	// has no gate reading the operand's input wires (consts_read_tabled of
+	// the model, computed here from the real circuit)
+	constsRead bool
+	unreadConst []string
 	hasNative    bool
 	cacheHits    int
 	untabled     []string
@@ -286,6 +292,8 @@ func c05Export(src string, sizes [][]int, opt c05StreamOpt) (ex *c05Exported, er
 	keyIDs := map[string]int{}
 	circIdx := map[*circuit.Circuit]int{}
 	var circs []SX
+	var circObjs []*circuit.Circuit
+	ex.constsRead = true
 	// ni/no: number of input/output wires as the streamer uses the circuit
 	// (len(in), len(out) of Streaming.Garble); circuits compiled for a step
 	// carry no IO description of their own
@@ -293,6 +301,7 @@ func c05Export(src string, sizes [][]int, opt c05StreamOpt) (ex *c05Exported, er
 		_, gs := CircuitSX(c)
 		dims := L(I(c.NumWires), I(ni), I(no))
 		circs = append(circs, L(dims, gs, Ints(ins), Ints(outs)))
+		circObjs = append(circObjs, c)
 		ex.gates += len(c.Gates)
 		return len(circs) - 1
 	}
@@ -321,6 +330,9 @@ func c05Export(src string, sizes [][]int, opt c05StreamOpt) (ex *c05Exported, er
 			continue
 		}
 		var ins []SX
+		type untabledOp struct{ pos, off, bits int }
+		var pending []untabledOp
+		inOff := 0
 		for pos, in := range instr.In {
 			// constant operands in value positions that are not in
 			// prog.Constants (consts_tabled of the model)
@@ -334,8 +346,10 @@ func c05Export(src string, sizes [][]int, opt c05StreamOpt) (ex *c05Exported, er
 				}
 				if valuePos {
 					ex.untabled = append(ex.untabled, fmt.Sprintf("%s:%d", instr.Op, pos))
+					pending = append(pending, untabledOp{pos, inOff, int(in.Type.Bits)})
 				}
 			}
+			inOff += int(in.Type.Bits)
 			ins = append(ins, keys.val(in))
 			if !in.Const {
 				info.ins = append(info.ins, keys.num(in))
@@ -404,6 +418,29 @@ func c05Export(src string, sizes [][]int, opt c05StreamOpt) (ex *c05Exported, er
 			}
 			ci = idx
 			ex.nCirc++
+			// untabled constant operands of this builder step: does any
+			// gate of the step's circuit read their input wires?
+			for _, u := range pending {
+				read := false
+				for _, g := range circObjs[idx].Gates {
+					a, b := int(g.Input0), int(g.Input1)
+					if (a >= u.off && a < u.off+u.bits) || (g.Op != circuit.INV && b >= u.off && b < u.off+u.bits) {
+						read = true
+						break
+					}
+				}
+				if read {
+					ex.constsRead = false
+				} else {
+					ex.unreadConst = append(ex.unreadConst, fmt.Sprintf("%s:%d", instr.Op, u.pos))
+				}
+			}
+			pending = nil
+		}
+		if len(pending) > 0 {
+			// an untabled constant in a value position of ret / an alias
+			// instruction / a native circuit
+			ex.constsRead = false
 		}
 		steps = append(steps, L(I(int(instr.Op)), L(ins...), out, L(rets...), I(ci), I(keyID), Bool(hit)))
 		if hit {
